@@ -13,6 +13,16 @@ CHECKS = {
                 level_note="Trusts math/big. Negative shift counts and over-wide counts with operand 0 are outside the asserted domain (DESIGN 4.4).",
                 assumptions=["math/big is correct", "operands outside a function's parameter type are not cases",
                              "shift counts < 0, and counts >= width with operand 0, are outside the asserted domain (DESIGN 4.4)"]),
+    "C12": dict(pkg="chaincheck", test="TestC12", shards=12, journal=True,
+                technique=PBT + "exhaustive permutation of small block trees plus generated delivery orders of larger ones against a model of the main chain",
+                level_text="Real protocol.Chain instances (production LevelDB wrapper over in-memory storage, harness-owned validator keys, custom epoch length) receive every permutation of the blocks of small bushy trees and generated permutations (with duplicates) of trees of up to 24 transaction-carrying blocks. After the last delivery every block must be connected, the best block must be the fork-choice winner, the main-chain index and the ledger must equal the model of that chain. A crash of the block-processor goroutine kills the test binary; the journal of the running case then becomes the replay.",
+                level_note="Trusts chainkit's block builder and ledger model (harness code, validated by the node accepting its blocks). Orphan expiry by wall clock (60 min) is not exercised.",
+                assumptions=["blocks are valid and distinct", "orphan pool limit (256) and TTL not reached"]),
+    "C10": dict(pkg="chaincheck", test="TestC10", shards=12, journal=True,
+                technique=PBT + "generated block trees and delivery orders; node state compared after every step with an independent fold of the main chain, plus differential probe blocks against a fresh node",
+                level_text="Block trees of 5-40 blocks with spends, coinbase spends, votes, vetoes, contract registrations and issuances are delivered so that the node walks through reorganisations; after every delivery the unspent set, the constraint height of every coinbase/vote output and the contract table read from the database must equal a 100-line reference fold of the current main chain. Finally one probe block (veto at or inside the lock, immature coinbase spend, double spend, missing input, ordinary spend) must get the same verdict from the history node, from a fresh node that only saw the main chain, and from the model.",
+                level_note="Trusts chainkit's model; block height of normal outputs is not compared (not a spending constraint). One probe per case because a refused block stays in the fork-choice tree (C13 known finding).",
+                assumptions=["all generated blocks are valid", "probe verdict = error value of ProcessBlock"]),
 }
 
 _ALL = [json.loads(l)["id"] for l in open(os.path.join(os.path.dirname(os.path.abspath(__file__)), "properties.jsonl"))]
